@@ -30,6 +30,8 @@ type CallSiteSpec struct {
 	Ordinal int
 	Asserts []Clause
 	Assumes []Clause // none allowed without listing; kept for `label`
+	Frame   []Clause // `at call X#N modifies a, b | nothing`: trusted frame of a contract-less callee at this site
+	HasFrame bool
 }
 
 type FuncContract struct {
@@ -53,6 +55,7 @@ type FuncContract struct {
 	Ghost      []GhostUpdate
 	Notes      []string
 	Inst       []Clause // instantiation hints (integer shift terms)
+	Dispatch   map[string]Clause // interface type key -> concrete type: invokes on that interface are calls of the concrete method (obligation: the dynamic type is that type)
 	Check      []string // if set: the only safety obligation kinds generated for this function
 	Stores     []*CallSiteSpec // `at store Field#N assert …`: checked right after the N-th store (source order) to a field of that name
 	Src        string
@@ -261,6 +264,19 @@ func (c *Contracts) LoadFile(path, pkg string) error {
 				}
 				cur.Inst = append(cur.Inst, cl)
 			}
+		case "dispatch":
+			// dispatch <interface type key> <concrete type expression>
+			if len(w) < 3 {
+				return fmt.Errorf("%s: dispatch <interface> <concrete type>", src)
+			}
+			cl, err := parseSpecExpr(rest(2), src)
+			if err != nil {
+				return err
+			}
+			if cur.Dispatch == nil {
+				cur.Dispatch = map[string]Clause{}
+			}
+			cur.Dispatch[w[1]] = cl
 		case "pure":
 			cur.Pure = true
 		case "trusted":
@@ -338,6 +354,29 @@ func (c *Contracts) LoadFile(path, pkg string) error {
 					fmt.Sscanf(callee[i+1:], "%d", &ord)
 				}
 				callee = callee[:i]
+			}
+			if w[3] == "modifies" {
+				var cs *CallSiteSpec
+				for _, x := range cur.Calls {
+					if x.Callee == callee && x.Ordinal == ord {
+						cs = x
+					}
+				}
+				if cs == nil {
+					cs = &CallSiteSpec{Callee: callee, Ordinal: ord}
+					cur.Calls = append(cur.Calls, cs)
+				}
+				cs.HasFrame = true
+				if strings.TrimSpace(rest(4)) != "nothing" {
+					for _, part := range splitTop(rest(4)) {
+						cl, err := parseSpecExpr(part, src)
+						if err != nil {
+							return err
+						}
+						cs.Frame = append(cs.Frame, cl)
+					}
+				}
+				break
 			}
 			cl, err := parseSpecExpr(rest(4), src)
 			if err != nil {
